@@ -3140,6 +3140,20 @@ def inline_loop_helpers(tree):
                         # <stmts>; loop; tail
                         loops = [k for k, b in enumerate(body) if isinstance(
                             b, (ast.For, ast.While))]
+                        endless = len(loops) == 1 and loops[0] == len(
+                            body) - 1 and isinstance(
+                            body[-1], ast.While) and isinstance(
+                            body[-1].test, ast.Constant) and \
+                            body[-1].test.value is True
+                        if endless:
+                            # `while True:` left only through its returns
+                            body = body + [ast.copy_location(ast.Raise(
+                                exc=ast.Call(func=ast.Name(
+                                    id="AssertionError", ctx=ast.Load()),
+                                    args=[], keywords=[]), cause=None),
+                                body[-1])]
+                            ast.fix_missing_locations(body[-1])
+                            loops = [len(body) - 2]
                         if len(loops) != 1 or loops[0] != len(body) - 2:
                             i += 1
                             continue
@@ -3199,7 +3213,7 @@ def inline_loop_helpers(tree):
                             tail2 = ast.Assign(
                                 targets=[ast.Name(id=v, ctx=ast.Store())],
                                 value=tail2.value or ast.Constant(value=None))
-                        lp2.orelse = [tail2]
+                        lp2.orelse = [] if endless else [tail2]
                         inst = inst[:-1]
                     else:
                         i += 1
